@@ -11,6 +11,9 @@
      pkg/scheduler/plugins/reservation/plugin.go       fitsReservation, fitsNodeAndReservation,
         FilterNominateReservation (allocate-once gate)
      pkg/util/reservation/reservation.go               owner matchers, GetReservationRestrictedResources
+     pkg/scheduler/frameworkext/eventhandlers/reservation_handler.go   the scheduler-wide handler
+        of the Reservation informer (addReservation / updateReservation cases 0-6 / deleteReservation,
+        tombstones) as far as it reaches ReservationCache.DeleteReservation
 
    Conventions: every string (uid, node, resource name, label, ...) is an integer id given in
    string order; 0 is the empty string.  Quantities are integers (milli-units for cpu).
@@ -396,10 +399,21 @@ Inductive hop :=
                                             lister's object, the node comes from the call *)
 | HUnreserveRsv (s : rspec) (n : Z)      (* Plugin.Unreserve(reserve pod of s, node n); also when
                                             the lister no longer has s (uid from the pod) *)
-| HSchedule (pu : Z) (req : res) (n t : Z).
+| HSchedule (pu : Z) (req : res) (n t : Z)
   (* one scheduling cycle of the plugin for pod pu (no reservation affinity, owner label of
      reservation t) on node n, which has room: BeforePreFilter -> Filter -> NominateReservation
      -> Reserve *)
+(* one event of the Reservation informer, delivered to BOTH handlers registered on it: the
+   plugin's reservationEventHandler and the scheduler-wide handler of
+   frameworkext/eventhandlers/reservation_handler.go (the one that really removes a reservation from
+   the cache).  The two listeners run on their own goroutines, so either may come first:
+   who = 0 plugin handler then scheduler-wide handler, 1 the other way round, 2 the
+   scheduler-wide handler alone (the plugin handler alone is HRsvAdd / HRsvUpdate / HRsvDelete) *)
+| HInfAdd (s : rspec) (who : Z)
+| HInfUpdate (o s : rspec) (who : Z)     (* old and new object of the update event *)
+| HInfDelete (s : rspec) (who : Z) (tomb : bool).
+  (* tomb: the event carries a cache.DeletedFinalStateUnknown tombstone (deletion noticed by a
+     re-list); both handlers unwrap it, so the model does not look at the flag *)
 
 Definition as_preq (p : pev) : preq := (e_uid p, e_req p).
 
@@ -445,13 +459,38 @@ Definition sched_target (c : cache) (req : res) (n t : Z) : option rinfo :=
   | None => None
   end.
 
+(* reservationEventHandler.OnAdd / OnUpdate / OnDelete of the plugin *)
+Definition lower_rsv_add (s : rspec) : list cop := if is_active s then [CUpdate false 0 s] else [].
+Definition lower_rsv_update (s : rspec) : list cop :=
+  if is_active s then [CUpdate false 0 s]
+  else if is_finished s then [CUpdate true 0 s] else [].
+Definition lower_rsv_delete (s : rspec) : list cop :=
+  [CUpdate true 0 (if is_available s then set_phase s 3 else s)].
+
+(* the scheduler-wide handler (eventhandlers/reservation_handler.go), as far as it touches the
+   reservation cache: deleteReservationFromSchedulerCache calls ReservationCache.DeleteReservation
+   of every profile unless the object has no node name; addReservation only feeds the scheduler
+   cache / queue.  isReservationActive of that file = no node name and not Failed / Succeeded *)
+Definition is_unassigned (s : rspec) : bool := (s_node s =? 0) && negb (is_finished s).
+Definition g_delete (s : rspec) : list cop :=
+  if s_node s =? 0 then [] else [CDelete (s_uid s) (s_node s)].
+Definition g_update (o s : rspec) : list cop :=
+  if is_finished o && is_finished s then []                       (* case 0: keep terminated *)
+  else if is_available o && is_available s then                   (* case 1: keep available *)
+    (if negb (s_uid o =? s_uid s) || negb (s_node o =? s_node s) then g_delete o else [])
+  else if is_unassigned o && is_available s then []               (* case 2: got scheduled *)
+  else if is_available o && is_finished s then g_delete o         (* case 3: available -> terminated *)
+  else if is_available o && is_unassigned s then g_delete o       (* case 4: rollback *)
+  else [].
+(* the two listeners of one informer event *)
+Definition compose (who : Z) (p g : list cop) : list cop :=
+  if who =? 1 then g ++ p else if who =? 2 then g else p ++ g.
+
 Definition lower (c : cache) (h : hop) : list cop :=
   match h with
-  | HRsvAdd s => if is_active s then [CUpdate false 0 s] else []
-  | HRsvUpdate s =>
-    if is_active s then [CUpdate false 0 s]
-    else if is_finished s then [CUpdate true 0 s] else []
-  | HRsvDelete s => [CUpdate true 0 (if is_available s then set_phase s 3 else s)]
+  | HRsvAdd s => lower_rsv_add s
+  | HRsvUpdate s => lower_rsv_update s
+  | HRsvDelete s => lower_rsv_delete s
   | HRsvAssume s => [CUpdate false 0 s]
   | HRsvRemove u n => [CDelete u n]
   | HPodAssume ru pu req => [CAddPod ru pu req]
@@ -466,6 +505,9 @@ Definition lower (c : cache) (h : hop) : list cop :=
     | Some _ => [CAddPod t pu req]      (* Reserve: assumePods(nominated, pod) *)
     | None => []
     end
+  | HInfAdd s who => compose who (lower_rsv_add s) []
+  | HInfUpdate o s who => compose who (lower_rsv_update s) (g_update o s)
+  | HInfDelete s who _ => compose who (lower_rsv_delete s) (g_delete s)
   end.
 
 Definition hstep (c : cache) (h : hop) : cache := crun c (lower c h).
@@ -557,6 +599,38 @@ Fixpoint last_req (u : Z) (L : list preq) : option res :=
 (* newest first *)
 Definition deliver (L : list preq) (l : list cop) : list preq :=
   fold_left (fun L o => delivered_cop o ++ L) l L.
+
+(* the Reservation objects (or operating pods, as rspec) delivered to the cache, newest first *)
+Definition delivered_spec (o : cop) : list rspec :=
+  match o with CUpdate _ _ s => [s] | _ => [] end.
+Fixpoint last_spec (u : Z) (S : list rspec) : option rspec :=
+  match S with
+  | [] => None
+  | s :: t => if s_uid s =? u then Some s else last_spec u t
+  end.
+Definition deliver_specs (S : list rspec) (l : list cop) : list rspec :=
+  fold_left (fun S o => delivered_spec o ++ S) l S.
+
+(* reservations the informer reported deleted (to the scheduler-wide handler) and that were not
+   delivered again since: (uid, the delete event carried a node name) *)
+Notation dead := (list (Z * bool)).
+Definition touches (u : Z) (o : cop) : bool :=
+  match o with CUpdate _ _ s => s_uid s =? u | _ => false end.
+Definition undead (D : dead) (l : list cop) : dead :=
+  filter (fun d : Z * bool => negb (existsb (touches (fst d)) l)) D.
+Definition deleted_by (h : hop) : dead :=
+  match h with
+  | HInfDelete s _ _ => [(s_uid s, negb (s_node s =? 0))]
+  | _ => []
+  end.
+Definition next_dead (c : cache) (h : hop) (D : dead) : dead := deleted_by h ++ undead D (lower c h).
+(* the delete event names the node the reservation is cached on (part of the node-stability
+   hypothesis: also checked when the scheduler-wide handler skips an object without node name) *)
+Definition hop_stable (c : cache) (h : hop) : bool :=
+  match h with
+  | HInfDelete s _ _ => node_stable_op c (CDelete (s_uid s) (s_node s))
+  | _ => true
+  end.
 
 Fixpoint all_along (P : cache -> cop -> bool) (c : cache) (l : list cop) : bool :=
   match l with
